@@ -78,6 +78,14 @@ def run(ctx):
         aq = rng.choice([None, None, "qint8", "qfloat8_e4m3fn"])
         quantize(model, weights=q.qtypes[wq], activations=None if aq is None else q.qtypes[aq])
         x = torch.randn(shape).to(dt)
+        if aq is not None:
+            # "every input": also an input that is already quantized in the activation qtype, with a scale of its own
+            qa = q.qtypes[aq]
+            sx = (x.abs().max().float() * rng.choice([0.6, 1.0, 1.7]) / (127 if aq == "qint8" else 448)).to(dt)
+            xq = q.quantize_activation(x, qa, sx)
+            run_model = lambda mod: out_bits(mod(x)) + out_bits(mod(xq))
+        else:
+            run_model = lambda mod: out_bits(mod(x))
         events = ["forward"] + [rng.choice(["forward", "calibrate", "freeze", "freeze", "to_cpu", "deepcopy"]) for _ in range(rng.randrange(2, 9))]
         if "freeze" not in events:
             events.insert(rng.randrange(1, len(events) + 1), "freeze")
@@ -89,7 +97,7 @@ def run(ctx):
             try:
                 with torch.no_grad():
                     if ev == "forward":
-                        o = out_bits(model(x))
+                        o = run_model(model)
                         if last is not None and o != last:
                             ctx.spec_failures.append(("C09:outputs-changed-without-calibration", dict(cfg, at=i)))
                             ok = False
@@ -100,11 +108,11 @@ def run(ctx):
                                 model(x)
                             last = None
                     elif ev == "freeze":
-                        before_out = out_bits(model(x))
+                        before_out = run_model(model)
                         nw = nonweight_snapshot(model)
                         fs = frozen_snapshot(model) if frozen else None
                         freeze(model)
-                        after_out = out_bits(model(x))
+                        after_out = run_model(model)
                         if before_out != after_out:
                             ctx.spec_failures.append(("C09:freeze-changes-outputs", dict(cfg, at=i, refreeze=frozen)))
                             ok = False
@@ -137,9 +145,9 @@ def run(ctx):
                     elif ev == "to_cpu":
                         model.to("cpu")
                     elif ev == "deepcopy":
-                        ref = out_bits(model(x))
+                        ref = run_model(model)
                         model2 = copy.deepcopy(model)
-                        if out_bits(model2(x)) != ref:
+                        if run_model(model2) != ref:
                             ctx.spec_failures.append(("C09:deepcopy-changes-outputs", dict(cfg, at=i, frozen=frozen)))
                         model = model2
             except Exception as e:  # noqa
